@@ -291,6 +291,8 @@ def query_desc(draw, ftype):
     }
     if draw(st.integers(0, 3)) == 0:
         q['int_alt'] = True
+    if draw(st.integers(0, 2)) == 0:
+        q['az_conv'] = 'negative'
     if ftype in ('uniform', 'affine') and draw(st.integers(0, 2)) == 0:
         # heading relative to the local wind direction: 0 = pure tailwind, 180 = pure headwind
         q['hrel'] = draw(st.sampled_from([0.0, 0.0, 180.0, 180.0, 90.0, 270.0]))
@@ -508,6 +510,10 @@ class WeatherCheck:
             h = 0.0
         if q['via'] == 'azimuth':
             az_param, az_point = h, (h + 77.0) % 360.0  # the explicit azimuth must win over the point's (not 90: that coincides with the exchanged-components finding)
+            if q.get('az_conv') == 'negative' and h > 180.0:
+                # the same direction in the (-180, 180] convention, which is what a geodesic library hands a caller
+                az_param = h - 360.0
+                ctx.label('azimuth.negative_convention')
         else:
             az_param, az_point = None, h
         st_, got = self.call(t, r['lat'], r['lon'], az_point, r['alt'], tas, az_param)
